@@ -960,6 +960,11 @@ func (m *model) runLockNew(f *inflight) outcome {
 	lo.lastResp = nil
 	m.holdConf(conf)
 	lf := &mLF{lo: lo, of: of, access: of.access}
+	for _, x := range lo.files {
+		if x.of.leaf == of.leaf {
+			m.mark("lock_owner_on_two_opens_of_one_file")
+		}
+	}
 	if lf.access&accRead != 0 {
 		of.cnt[bitRead]++
 	}
@@ -982,7 +987,7 @@ func (m *model) runLockNew(f *inflight) outcome {
 	}
 	m.releaseConf(conf)
 	if st != ok {
-		m.lfRemove(lf)
+		m.lfRemove(lf, false)
 	}
 	o := finish(st, why, nil, check{"C20", func(res *nfsv4.Compound4res) error {
 		if r, isOK := mainRes(f, res).(*nfsv4.NfsResop4_OP_LOCK).Oplock.(*nfsv4.Lock4res_NFS4_OK); isOK && st == ok {
@@ -1174,7 +1179,7 @@ func (m *model) runReleaseLockowner(f *inflight) outcome {
 		}
 	}
 	for len(lo.files) > 0 {
-		m.lfRemove(lo.files[len(lo.files)-1])
+		m.lfRemove(lo.files[len(lo.files)-1], true)
 	}
 	m.mark("lock_owner_released")
 	o := f.fin(ok, "lock-owner holds no bytes: state released")
@@ -1222,7 +1227,7 @@ func (m *model) runIO(f *inflight) outcome {
 					return o
 				}
 				f.leaf = f.fh.leaf
-				if m.deadLeaf(f, f.leaf) {
+				if op.Kind != kSetattr && m.deadLeaf(f, f.leaf) {
 					// Unlinked and no longer opened by anyone: only the
 					// not yet finalized CLOSE keeps the handle resolvable.
 					o := f.fin(nfsv4.NFS4ERR_STALE, "file is unlinked and closed")
